@@ -114,8 +114,8 @@ Definition rm_cutoff_handlers : list String.string := [].
 Definition ty_code (t : ty) : nat := match t with TReal => 0 | TComplex => 1 | TBool => 2 end.
 
 (* model verdict on [inp] agrees with the implementation's verdict / output tree / root nodetype *)
-Definition agree_check (inp : expr) (impl : option (expr * nat)) : bool :=
-  match check inp, impl with
+Definition agree_check (fixm : bool) (inp : expr) (impl : option (expr * nat)) : bool :=
+  match check (cfn_of fixm) (cbs_of fixm) inp, impl with
   | None, None => true
   | Some (o, t), Some (o', t') => eqc o o' && Nat.eqb (ty_code t) t'
   | _, _ => false
